@@ -19,22 +19,25 @@ SPEC = {
 
 MANIFEST = {
     "text": ("Proved in Coq for ALL op sequences / schedules (induction over executions of the executable models, unbounded): "
-             "C01_stream_no_alteration — in the composed one-stream system (SendBuffer sender, network delivering any produced frame "
-             "any number of times in any order or never, Assembler receiver, any interleaving of writes, poll_transmit sizes, acks, "
-             "losses, re-chunked retransmits, 0-RTT restart, reads of any size, mode switch, clear) the bytes returned by ordered reads "
-             "are a gap-free in-order prefix of the bytes written, and every chunk returned by any read (ordered or unordered) equals "
-             "the written bytes at its offset and lies within what was written; C01_assembler_ordered_prefix / _reads_exact (same, for "
-             "the Assembler alone against any written sequence), C01_assembler_defragment_preserves_content, C01_heap_ops_permute (the "
-             "exact BinaryHeap model never loses or invents a buffer), C01_sendbuffer_frames_sound (every frame produced by "
-             "poll_transmit + copy loop is the slice of the written bytes at its offsets, after any acks / retransmits / 0-RTT restart), "
-             "C01_sendbuffer_get_progress (local form), C01_array_range_set_insert (invariant incl. non-adjacency, union semantics, "
-             "return flag). NOT proved, checked on every run by executable oracles on the implementation's outputs (sampling): "
-             "exactly-once for unordered reads (pairwise disjoint chunks, nothing returned twice after the ordered->unordered switch), "
-             "no-loss/progress of reads, SendBuffer ownership invariant (no byte forgotten or sent while acked), BTree RangeSet and "
-             "ArrayRangeSet.remove set semantics (against the reference specification Lib/RangeSpec.v). End-of-stream / reset code are "
-             "at the Recv/Chunks level (C11). The models are hand-written and tied to the Rust code on every run by differential "
-             "correspondence (same op sequences through the real component and the model, outputs incl. probes of the internal heap "
-             "vector / segment list compared verbatim by vm_compute). Two genuine defects were found and repaired (see assumptions)."),
+             "C01_stream_no_alteration and C01_stream_exactly_once — in the composed one-stream system (SendBuffer sender, network "
+             "delivering any produced frame any number of times in any order or never, Assembler receiver, any interleaving of writes, "
+             "poll_transmit sizes, acks, losses, re-chunked retransmits, 0-RTT restart, reads of any size, mode switch, clear) the bytes "
+             "returned by ordered reads are a gap-free in-order prefix of the bytes written, every chunk returned by any read (ordered "
+             "or unordered) equals the written bytes at its offset and lies within what was written, and no stream offset is returned "
+             "twice; C01_assembler_ordered_prefix / _reads_exact / _exactly_once / _unordered_disjoint (same for the Assembler alone, "
+             "including the ordered->unordered switch), C01_assembler_defragment_preserves_content, C01_heap_ops_permute (the exact "
+             "BinaryHeap model never loses or invents a buffer), C01_range_set_replace / C01_range_set_insert (BTree RangeSet: invariant "
+             "incl. non-adjacency, union semantics, the Replace iterator reports exactly the part already present), "
+             "C01_array_range_set_insert, C01_sendbuffer_frames_sound (every frame produced by poll_transmit + copy loop is the slice "
+             "of the written bytes at its offsets, after any acks / retransmits / 0-RTT restart), C01_sendbuffer_get_progress (local "
+             "form). NOT proved, checked on every run by executable oracles on the implementation's outputs (sampling): no-loss / "
+             "progress of reads (needs the heap-order invariant), SendBuffer ownership invariant (no byte forgotten or sent while "
+             "acked; the strict form has a benign counterexample recorded in Props/C01.v: a 0-RTT restart with a lost range pending "
+             "transmits that range twice), ArrayRangeSet.remove (against the reference specification Lib/RangeSpec.v). End-of-stream / "
+             "reset code are at the Recv/Chunks level (C11). The models are hand-written and tied to the Rust code on every run by "
+             "differential correspondence (same op sequences through the real component and the model, outputs incl. probes of the "
+             "internal heap vector / segment list compared verbatim by vm_compute). Two genuine defects were found and repaired "
+             "(see assumptions)."),
     "note": ("Trusted: Coq kernel + vm_compute; hand-written models whose agreement with the code is sampled, not proved; hook "
              "interpreters (connection/verif_hooks/{assembler,send_buffer}.rs, verif_hooks/range_set.rs, read-only probes "
              "Assembler::verif_probe / SendBuffer::verif_probe); python driver and generators. No axioms "
